@@ -450,6 +450,7 @@ def analyse_case(case, houts, focus):
         where = {"case_op": oi, "build_key": o["key"]}
         created, finished, inflight = [], set(), set()
         tasks = {}
+        reason_of = {}
         cancelled = any(e[0] == "X" for e in tr)
         cyc = [e for e in tr if e[0] == "CY"]
         err = any(e[0] == "ER" for e in tr)
@@ -476,6 +477,7 @@ def analyse_case(case, houts, focus):
             elif t == "N":
                 k, reason, inp = int(e[1]), int(e[2]), int(e[3])
                 st["reasons"][reason] = st["reasons"].get(reason, 0) + 1
+                reason_of[k] = reason
                 if focus in ("C02", "all"):
                     ok = True
                     if reason == 0:
@@ -553,6 +555,17 @@ def analyse_case(case, houts, focus):
                     fails.append({"what": "inputsAvailable out of protocol for %d" % k, "kind": "protocol", "input": where})
                     continue
                 tk["ia"] = 1
+                # "start, then its prior value if one exists": a result with the rule's current signature exists exactly when
+                # the rule re-runs because its value was declared invalid (2) or an input was rebuilt (3); it does not when the
+                # rule was never built / interrupted (0) or its signature changed (1)
+                if k in reason_of and reason_of[k] in (0, 1, 2, 3):
+                    want = reason_of[k] in (2, 3)
+                    st["prior_checked"] = st.get("prior_checked", 0) + 1
+                    if bool(tk["pp"]) != want:
+                        fails.append({"what": "task %d %s its prior value although the rule re-runs for reason %d (%s)" % (
+                                          k, "was offered" if tk["pp"] else "was NOT offered", reason_of[k],
+                                          "a stored result with the current signature exists" if want else "no usable stored result exists"),
+                                      "kind": "protocol", "clause": "prior-value", "input": where})
                 if int(e[2]):
                     st["disc"] += 1
                 for q in tk["reqs"]:
